@@ -68,6 +68,28 @@ def _c02_extra(tier, seed, out, drv):
     out.traces_validated += 1
     if sorted(mo['procs']) != real_procs or sorted(mo['flagged']) != real_flags:
         out.disagreements.append(dict(suite='dispatch-table', key='procs', detail=dict(kind='process_* methods / include flags', model=mo, real=dict(procs=real_procs, flagged=real_flags))))
+    dispatch_collisions('C02', out, drv, real_procs, mo)
+
+
+def dispatch_collisions(prop, out, drv, real_procs=None, mo=None):
+    """commands are dispatched by `"process_" + name in dir(self)`: every method of the aggregator that happens to be called process_<x> turns the
+    user command <x> into a special one (known finding K2 is the instance x = generic_command).  For every such name the model does not know, a
+    file that calls a command of that name — valid CMake — is put through the real pipeline: it must be accepted (C05), and with a doccomment
+    it must get its generic entry (C02)"""
+    from impl import DocumentationAggregator
+    if real_procs is None: real_procs = sorted(n[len('process_'):] for n in dir(DocumentationAggregator) if n.startswith('process_'))
+    if mo is None: mo = drv.run([dict(op='procs')])[0]
+    for name in sorted(set(real_procs) - set(mo['procs'])):
+        for documented in (False, True):
+            src = ('#[[[\n# About it.\n#]]\n' if documented else '') + f'{name}(alpha "b c")\nfunction(after_{name} x)\nendfunction()\n'
+            with impl.Sandbox() as sb:
+                real = impl.real_pipeline(sb, src, impl.make_settings({}, headers=['#']), 'T', 'M')
+            out.traces_validated += 1; out.note_case((prop, 'dispatch', name, documented), True)
+            rec = dict(suite='dispatch-collision', key=(prop, 'dispatch', name, documented), source=src)
+            if 'rst' not in real:
+                out.violations.append(dict(rec, detail=dict(kind='a valid file calling a user command named like a process_* method is rejected', command=name, real=real), model_agrees=False))
+            elif documented and f'.. function:: {name}(' not in real['rst']:
+                out.violations.append(dict(rec, detail=dict(kind='documented command without its generic entry', command=name, page=real['rst'][:600]), model_agrees=False))
 
 
 module_plan('C02', 800, 20000,
@@ -246,6 +268,7 @@ def _c05_run(tier, seed, out, drv):
     s_text.lex_suite('C05', seed, 1500 if q else 30000, out, drv, exhaustive_len=0 if q else 5)
     s_text.cmake_trace_suite(seed, 150 if q else 4000, out, drv)
     s_text.big_file_suite(seed, 6 if q else 60, out, drv)
+    dispatch_collisions('C05', out, drv)
 
 
 def _c05_search(tier, seed, out, drv, dis):
